@@ -2,9 +2,11 @@
 import json, sys
 pid = sys.argv[1]
 tests = sys.argv[2] if len(sys.argv) > 2 else "the test files of the modules you touch"
-p = next(json.loads(l) for l in open('/verif/properties.jsonl') if json.loads(l)['id'] == pid)
+prop = pid[:3]
+avoid = sys.argv[3] if len(sys.argv) > 3 else ''
+p = next(json.loads(l) for l in open('/verif/properties.jsonl') if json.loads(l)['id'] == prop)
 df_note = ""
-if pid in {"C36","C37","C38","C39","C40","C41","C42","C43","C44","C45","C46","C47","C13","C14","C16"}:
+if prop in {"C36","C37","C38","C39","C40","C41","C42","C43","C44","C45","C46","C47","C13","C14","C16"}:
     df_note = ("\nEnvironment note: pyarrow is not installed, so `import dask.dataframe` fails as is. An import stub is provided at "
                "/tmp/seed/shim (not part of dask): in any program that needs dask.dataframe do `import pandas, sys; "
                "sys.path.append('/tmp/seed/shim'); import dask; dask.config.set({'dataframe.convert-string': False}); "
@@ -14,12 +16,12 @@ print(f"""You are working in a scratch git worktree of the dask library at /tmp/
 {df_note}
 This is an exercise in testing a verification suite: the library is claimed to satisfy the following property.
 
-PROPERTY {pid}: {p['title']}
+PROPERTY {prop}: {p['title']}
 Statement: {p['statement']}
 Scope of the claim: {p['quantifier']['text']}
 Code involved: {', '.join(p['anchors'].get('files', []))}
 
-Your task: make ONE small, realistic change to the library source (under dask/) that BREAKS this property while
+{('An earlier exercise already used this change, so pick a DIFFERENT mechanism in different code: ' + avoid + chr(10) + chr(10)) if avoid else ''}Your task: make ONE small, realistic change to the library source (under dask/) that BREAKS this property while
  (a) the package still imports and ordinary use still works,
  (b) the repository's existing tests still pass — run at least {tests} with `cd /tmp/seed/{pid} && /venv/bin/python -m pytest -q -p no:cacheprovider -x <files>` before and after your change and make sure the set of passing tests is unchanged,
  (c) the breakage needs something SPECIFIC to manifest — a particular interleaving or completion order, a failure at a particular point, a multi-step sequence of operations, an unusual input (size, chunking, dtype, boundary value), a particular configuration value, or two cooperating sites that each look fine alone — NOT something that ordinary use or a casual smoke test would expose at once. Think of the kind of bug a plausible refactoring or "optimisation" could introduce (an off-by-one at a boundary, a dropped case in a condition, a cache/key that ignores one argument, a wrong tie-break, state not restored on one path...).
